@@ -1499,9 +1499,10 @@ class Parallel(Logger):
 
                 try:
                     islice = list(itertools.islice(iterator, big_batch_size))
-                except Exception as e:
+                except BaseException as e:
                     # Handle the fact that the generator of task raised an
-                    # exception. As this part of the code can be executed in
+                    # exception (possibly one that is not an Exception, e.g.
+                    # SystemExit). As this part of the code can be executed in
                     # a thread internal to the backend, register a task with
                     # an error that will be raised in the user's thread.
                     if isinstance(e.__context__, queue.Empty):
